@@ -40,6 +40,7 @@ type machSpec struct {
 	Rsize uint8 // register size
 	Incs  []int // number of `inc` instructions of every processor
 	Two   bool  // two BM outputs (o0 unconnected, the chain ends in o1): used for the error path
+	Fail  int   // extra unconnected processors whose every step FAILS (`addf16` at a register size != 16)
 }
 
 func (m machSpec) String() string {
@@ -47,12 +48,19 @@ func (m machSpec) String() string {
 	for _, i := range m.Incs {
 		s += fmt.Sprintf(".%d", i)
 	}
+	if m.Fail > 0 {
+		s += fmt.Sprintf(":fail%d", m.Fail)
+	}
 	return s
 }
 
 func parseMach(s string) (machSpec, error) {
 	var m machSpec
 	f := strings.Split(s, ":")
+	if len(f) == 5 && strings.HasPrefix(f[4], "fail") {
+		fmt.Sscanf(f[4], "fail%d", &m.Fail)
+		f = f[:4]
+	}
 	if len(f) != 4 || f[0] != "chain" {
 		return m, fmt.Errorf("bad machine %q", s)
 	}
@@ -111,6 +119,24 @@ func (m machSpec) build() (*bondmachine.Bondmachine, error) {
 		d.Program = p
 		bm.Domains = append(bm.Domains, d)
 		if _, err := bm.Add_processor(i); err != nil {
+			return nil, err
+		}
+	}
+	// processors whose step fails on every tick: procbuilder's Addf16.Simulate rejects any register size
+	// but 16 (VM.Step of the pinned tree drops the error; the simulation of the chain is unaffected)
+	for i := 0; i < m.Fail; i++ {
+		d := new(procbuilder.Machine)
+		d.Arch.Rsize = m.Rsize
+		d.Arch.Modes = []string{"ha"}
+		d.Arch.R, d.Arch.N, d.Arch.M, d.Arch.L, d.Arch.O = 2, 1, 1, 2, 5
+		d.Arch.Op = opsByName("addf16", "j")
+		p, err := d.Arch.Assembler([]byte("addf16 r0 r0\nj 0\n"))
+		if err != nil {
+			return nil, err
+		}
+		d.Program = p
+		bm.Domains = append(bm.Domains, d)
+		if _, err := bm.Add_processor(m.P + i); err != nil {
 			return nil, err
 		}
 	}
@@ -328,6 +354,7 @@ func runBatch(id int, b batch, rng *common.Rng) (string, bool) {
 			for t := 0; t < ticks; t++ {
 				if _, err := vm.Step(nil); err != nil {
 					ok = false
+					break // a VM whose Step failed is not stepped again, only shut down
 				}
 			}
 			if s, has := interface{}(vm).(interface{ Shutdown() }); has {
@@ -373,7 +400,7 @@ func runBatch(id int, b batch, rng *common.Rng) (string, bool) {
 		return "", false
 	}
 	return fmt.Sprintf("B id=%d mode=%s n=%d k=%d P=%d ticks=%d fn=%s shut=%s mach=%s",
-		id, b.Mode, b.N, b.K, b.M.P, ticks, fn, shut, b.M.String()), ok
+		id, b.Mode, b.N, b.K, b.M.P+b.M.Fail, ticks, fn, shut, b.M.String()), ok
 }
 
 func measure(id int, b batch, rng *common.Rng) {
@@ -425,6 +452,14 @@ func measure(id int, b batch, rng *common.Rng) {
 	out.Flush()
 }
 
+// genFailMach: a chain plus 1..3 processors whose step fails every tick (register size 8 or 32)
+func genFailMach(rng *common.Rng, maxP int) machSpec {
+	m := genMach(rng, maxP)
+	m.Rsize = []uint8{8, 32}[rng.Intn(2)]
+	m.Fail = 1 + rng.Intn(3)
+	return m
+}
+
 func genMach(rng *common.Rng, maxP int) machSpec {
 	m := machSpec{P: 1 + rng.Intn(maxP), Rsize: []uint8{8, 16, 32}[rng.Intn(3)]}
 	for i := 0; i < m.P; i++ {
@@ -454,6 +489,11 @@ func runAll(tier string) {
 			next(batch{Mode: "seq", N: n, M: genMach(rng, 4)})
 			next(batch{Mode: "par", N: n, K: 1 + rng.Intn(8), M: genMach(rng, 4)})
 		}
+		// machines with failing steps (the step error must not strand any worker)
+		next(batch{Mode: "seq", N: 25, M: genFailMach(rng, 3)})
+		next(batch{Mode: "par", N: 25, K: 2 + rng.Intn(4), M: genFailMach(rng, 3)})
+		next(batch{Mode: "fit", N: 10, M: genFailMach(rng, 2)})
+		next(batch{Mode: "raw", N: 5, M: genFailMach(rng, 2)})
 		next(batch{Mode: "seqerr", N: 1 + rng.Intn(5), M: genMach(rng, 3)})
 		next(batch{Mode: "fit", N: 1, M: genMach(rng, 3)})
 		next(batch{Mode: "fit", N: 10, M: genMach(rng, 3)})
